@@ -1148,6 +1148,67 @@ def gen_averages(repo, out):
     return status
 
 
+GM_HEADER = '''import Cpl.Py
+/-! GENERATED by tools/py2lean_comp.py from /repo/cellpylib/ca_functions.py (`_get_memoized`) on every run. Do not edit.
+The memoization table is the list of its (key, value) items; `n.tobytes()` is the neighbourhood's contents (within one
+evolution dtype and length are fixed, so equal bytes = equal contents); the user's rule is a parameter that threads its own
+state; `d[k] = v` is `Cpl.dictSet`. -/
+
+namespace Cpl
+
+/-- `d[k] = v` on an insertion-ordered dict: replace in place, or append a new item. -/
+def dictSet {κ ν : Type} [BEq κ] (d : List (κ × ν)) (k : κ) (v : ν) : List (κ × ν) :=
+  if d.any (fun e => e.1 == k) then d.map (fun e => if e.1 == k then (e.1, v) else e) else d ++ [(k, v)]
+
+end Cpl
+
+namespace Cpl.Gen.Memo
+open Cpl
+'''
+
+
+def gen_memo(repo, out):
+    parts = [GM_HEADER]
+    status = {}
+    attempt = make_attempt(parts, status)
+
+    def go():
+        tree = ast.parse(open(os.path.join(repo, "cellpylib", "ca_functions.py")).read())
+        fn = find(tree.body, ast.FunctionDef, "_get_memoized")
+        ps = [a.arg for a in fn.args.args]
+        if ps != ["n", "c", "t", "apply_rule", "memoization_table"]:
+            raise Unsupported("parameters of _get_memoized")
+        body = [st for st in fn.body if not (isinstance(st, ast.Expr) and isinstance(st.value, ast.Constant))]
+        if len(body) != 2 or not (isinstance(body[0], ast.Assign) and isinstance(body[0].targets[0], ast.Name) and ast.unparse(body[0].value) == "n.tobytes()"):
+            raise Unsupported("_get_memoized does not start with key = n.tobytes()")
+        key = body[0].targets[0].id
+        iff = body[1]
+        if not (isinstance(iff, ast.If) and ast.unparse(iff.test) == "%s in memoization_table" % key and len(iff.body) == 1 and isinstance(iff.body[0], ast.Return)
+                and ast.unparse(iff.body[0].value) == "memoization_table[%s]" % key and len(iff.orelse) == 3):
+            raise Unsupported("_get_memoized is not `if key in table: return table[key] else: ...`")
+        a, b, c = iff.orelse
+        if not (isinstance(a, ast.Assign) and isinstance(a.targets[0], ast.Name) and ast.unparse(a.value) == "apply_rule(n, c, t)"):
+            raise Unsupported("the miss branch does not start with result = apply_rule(n, c, t)")
+        res = a.targets[0].id
+        if not (isinstance(b, ast.Assign) and ast.unparse(b.targets[0]) == "memoization_table[%s]" % key and ast.unparse(b.value) == res):
+            raise Unsupported("the miss branch does not store the result under the key")
+        if not (isinstance(c, ast.Return) and ast.unparse(c.value) == res):
+            raise Unsupported("the miss branch does not return the result")
+        return ("/-- `_get_memoized` (ca_functions.py), translated statement by statement. -/\n"
+                "def getMemoized {σ : Type} (applyRule : σ → List Int → Int → Int → Int × σ) (v_n : List Int) (v_c v_t : Int)\n"
+                "    (v_memoization_table : List (List Int × Int)) (s : σ) : Int × List (List Int × Int) × σ :=\n"
+                "  let v_%(k)s : List Int := v_n\n"
+                "  if (List.lookup v_%(k)s v_memoization_table).isSome then\n"
+                "    ((List.lookup v_%(k)s v_memoization_table).getD 0, v_memoization_table, s)\n"
+                "  else\n"
+                "    let (v_%(r)s, s1) := applyRule s v_n v_c v_t\n"
+                "    let v_memoization_table := Cpl.dictSet v_memoization_table v_%(k)s v_%(r)s\n"
+                "    (v_%(r)s, v_memoization_table, s1)" % dict(k=key, r=res))
+    attempt("getMemoized", go)
+    emit(out, "Memo.lean", parts, status, "Cpl.Gen.Memo")
+    return status
+
+
 def main():
     ap = argparse.ArgumentParser()
     ap.add_argument("--repo", default="/repo")
@@ -1161,6 +1222,7 @@ def main():
     st.update(gen_entropy_full(a.repo, a.out))
     st.update(gen_fixed_point(a.repo, a.out))
     st.update(gen_averages(a.repo, a.out))
+    st.update(gen_memo(a.repo, a.out))
     print("py2lean_comp: " + "; ".join("%s %s" % kv for kv in st.items()))
     sys.exit(0)
 
